@@ -11,9 +11,11 @@ from harness.pyx import drift
 from harness.props.c07 import bits2f, cvec
 
 ID = "C08"
-LEAN_TARGETS = ["ChmpyVerif.Props.C08", "ChmpyVerif.Props.C08Gen"]
+LEAN_TARGETS = ["ChmpyVerif.Props.C08", "ChmpyVerif.Props.C08Gen", "ChmpyVerif.Props.C08Kinds"]
 T = "ChmpyVerif.Props.C08."
 THEOREMS = [T + n for n in ("N_block_local", "N_unitary_invariant", "power_unitary_invariant", "P_zrot_invariant", "invariant_count", "P_rotation_invariant")]
+# number and ordering: the selection depends only on which kinds are named, N block first (model of the selection logic, tied by the oracle)
+THEOREMS += ["ChmpyVerif.Props.C08." + n for n in ("makeInvariants_congr", "makeInvariants_perm", "makeInvariants_both")]
 TRUSTED = [
     "hand model Model/SHT.lean of make_N_invariants, p_invariants_c (triple enumeration, parity split, cube roots), the Racah formula of clebsch() "
     "and power_spectrum, executed in Float by the driver",
